@@ -38,22 +38,22 @@ def gen_cases(ctx):
     cases = []
     sweep = Y.sweep_configs()
     if ctx.quick:
-        sweep = [s for n, s in enumerate(sweep) if n % 2 == (ctx.seed % 2)] + [sweep[1], sweep[16], sweep[29]]
+        sweep = [s for n, s in enumerate(sweep) if n % 2 == (ctx.seed % 2)] + [sweep[1], sweep[16], sweep[29]]  # every other kind per axis + the Bloch(i/-i) ones
     seen = set()
     for shape, kinds in sweep:
         cid = f"x-sweep-{'x'.join(map(str, shape))}-k{'.'.join(map(str, kinds))}"
         if cid in seen:
             continue
         seen.add(cid)
-        cases.append({"id": cid, "mode": "exact", "cfg": Y.pattern_cfg(shape, kinds, mat=1, T=2), "seed": rng.randrange(10**6)})
-    for n in range(6 if ctx.quick else 60):
+        cases.append({"id": cid, "mode": "exact", "cfg": Y.pattern_cfg(shape, kinds, mat=1, T=2), "seed": rng.randrange(10**6), "nb": 8 if ctx.quick else None})
+    for n in range(4 if ctx.quick else 60):
         shape = rng.choice([[3, 2, 2], [2, 3, 2], [2, 2, 3], [3, 3, 2], [2, 3, 3]])
         kinds = Y.random_kinds(rng)
         cfg = Y.pattern_cfg(shape, kinds, mat=1, T=2)
         val = [1, 2, 4]
         cfg["ie2"] = [rng.choice(val) for _ in cfg["ie2"]]
         cfg["im2"] = [rng.choice(val) for _ in cfg["im2"]]
-        cases.append({"id": f"x-rand{n}-{'x'.join(map(str, shape))}-k{'.'.join(map(str, kinds))}", "mode": "exact", "cfg": cfg, "seed": rng.randrange(10**6)})
+        cases.append({"id": f"x-rand{n}-{'x'.join(map(str, shape))}-k{'.'.join(map(str, kinds))}", "mode": "exact", "cfg": cfg, "seed": rng.randrange(10**6), "nb": 8 if ctx.quick else None})
     # tolerance scenes: conductivity, non-uniform grids, random float tensors, generic Bloch vectors, several steps
     for n in range(14 if ctx.quick else 120):
         shape = [rng.randint(2, 5), rng.randint(2, 4), rng.randint(2, 3)]
@@ -94,7 +94,7 @@ def observe(case):
     vf = jax.vmap(fwd)
     rec = {"id": case["id"], "kind": "energy", "tol": TOL, "devtol": 1000, "runs": [], "mons": []}
     if case["mode"] == "exact":
-        E0, H0 = Y.int_states(cfg, rs)
+        E0, H0 = Y.int_states(cfg, rs, n_dense=6, n_pairs=4, n_basis=case.get("nb"))
         B = E0.shape[0]
         t = jnp.zeros((B,), dtype=jnp.int32)
         E1, H1 = vf(t, jnp.asarray(E0, dtype=dt), jnp.asarray(H0, dtype=dt))
